@@ -72,6 +72,7 @@ def gen_cases(seed, tier):
     # from the walker's default state): documents written as an alternation of text and formulas
     for _ in range(300 if quick else 4000):
         cases.append(_delim_case(rnd))
+    cases += [c for c in PC.state_stream(random.Random(seed + 80), 500 if quick else 8000, modes=(False,))]
     # chained parsing-state deltas on arguments and environment bodies (real code only)
     for s in docgen.exhaustive(docgen.SYM_CHAINED, 3):
         if '\\c' in s:
@@ -270,14 +271,22 @@ def oracle(c):
     r = PC.real_parse(d)
     if r[0] != 'ok' or r[1] is None:
         s = d['s']
-        if r[0] == 'err' and s and set(s) <= {'$', 'a', ' '} and d['ctx'] == 'default':
+        if r[0] == 'err' and s and set(s) <= {'$', 'a', ' '} and d['ctx'] == 'default' and not d.get('state'):
             ref = _dollar_reference(s)
             if ref is not None and all(k == 'chars' or t.strip() for k, t in ref):
                 return ('well-formed-dollar-document-rejected', {'expected': ref, 'error_pos': r[1].pos})
         return None
-    res = _check(r[1], (False, None), [])
+    st = d.get('state') or {}
+    table = None
+    if 'latex_inline_math_delimiters' in st or 'latex_display_math_delimiters' in st:
+        table = {o: ('inline', c) for o, c in st.get('latex_inline_math_delimiters', [['$', '$'], ['\\(', '\\)']])}
+        table.update({o: ('display', c) for o, c in st.get('latex_display_math_delimiters', [['$$', '$$'], ['\\[', '\\]']])})
+    start = (bool(st.get('in_math_mode', False)), st.get('math_mode_delimiter') if st.get('in_math_mode') else None)
+    res = _check(r[1], start, [], table)
     if res:
         return res
+    if st:
+        return None
     s = d['s']
     if s and set(s) <= {'$', 'a', ' '}:
         ref = _dollar_reference(s)
